@@ -300,6 +300,45 @@ pub fn run(ctx: &mut Ctx, rep: &mut Report) {
         }
     }
 
+    // ---------------------------------------------------------------- histories on reused sequence / score buffers
+    if ctx.wants("score_reuse") {
+        rep.space(
+            "score_reuse",
+            "the C01 `reuse` histories (ONE StripedSequence and ONE StripedScores buffer: stripe_into six lengths incl. shrink-then-grow-past-the-first-size, configure / score_into / score_rows_into for three widths) of length 1..=3 (thorough 1..=4) ending in a scoring operation, under the 32-lane configurations {generic, sse2, avx2, dispatcher arms}",
+        );
+        let depth = if quick { 3 } else { 4 };
+        let ops = c01::reuse_ops();
+        let (seqs, mats) = c01::reuse_data();
+        let cfgs_ = [cfgs::Cfg::GenU32, cfgs::Cfg::SseU32, cfgs::Cfg::AvxU32, cfgs::Cfg::DispGen, cfgs::Cfg::DispSse, cfgs::Cfg::DispAvx];
+        let mut stack: Vec<Vec<cfgs::HOp>> = ops.iter().map(|&o| vec![o]).collect();
+        while let Some(h) = stack.pop() {
+            if h.len() < depth {
+                for &o in &ops {
+                    let mut n = h.clone();
+                    n.push(o);
+                    stack.push(n);
+                }
+            }
+            if !matches!(h.last().unwrap(), cfgs::HOp::Score(_) | cfgs::HOp::ScoreRows(_)) {
+                continue;
+            }
+            let mine = ctx.mine(idx);
+            idx += 1;
+            if !mine {
+                continue;
+            }
+            for &cfg in &cfgs_ {
+                if !crumb(|| wrap("C01", c01::reuse_json(cfg, &h))) {
+                    continue;
+                }
+                rep.eval_distinct(h.len() > 1);
+                if let Some((_, msg)) = c01::check_reuse(cfg, &h, &seqs, &mats) {
+                    memory_panic(rep, "C01", cfg.name(), &msg, || c01::reuse_json(cfg, &h));
+                }
+            }
+        }
+    }
+
     // ---------------------------------------------------------------- score on exact-capacity buffers
     if ctx.wants("score_exact") {
         rep.space(
